@@ -101,6 +101,16 @@ def check_image(ctx, img_path, n, flav, known=None, label="mkimage", meta=None):
             L.append("seek 0 %d" % off)
             L.append("read 0 %d" % ln)
             reqs.append((len(L), off, ln))
+        # every data block of the file is reached by a seek of its own (wherever the writer put it: block 2, the last block ...)
+        bs_ = 512 if flav & 1 else 488
+        nblk = (size + bs_ - 1) // bs_
+        order = list(range(nblk))
+        rng.shuffle(order)
+        for kb in order[:260]:
+            off = kb * bs_ + rng.choice([0, 0, 1, bs_ - 1])
+            L.append("seek 0 %d" % off)
+            L.append("read 0 3")
+            reqs.append((len(L), off, 3))
         L.append("close 0")
         reads.append((p, f, lo, reqs))
     # links: open through a link to a file, cd through a link to a directory
@@ -204,7 +214,7 @@ def run(ctx):
     for i in range(n_img):
         flav = rng.choice(gen.FLAVOURS)
         n = rng.choice([1760, 1760, 3520, 4200])
-        pol = rng.choice(["random", "random", "reverse", "interleave"])
+        pol = rng.choice(["random", "random", "reverse", "interleave", "data-low"])
         tree = add_links(rng, random_tree(rng, flav))
         im = mkimage.Image(n, flav, rng, policy=pol, garbage=rng.random() < 0.8)
         try:
@@ -235,7 +245,7 @@ def run(ctx):
             continue           # HD floppy image with an RDB-less 3520-block volume handled like a floppy
         check_image(ctx, f, n, flav, known=None, label="amigados-dump:" + os.path.basename(f))
     rule = ("images written by the independent writer with random/reversed/interleaved block placement, shuffled hash chains, garbage in free blocks, Latin-1 names, "
-            "hard links, cache blocks split at random; sizes 0, 1, bs-1, bs, bs+1, 72 and 73 blocks, >144 blocks; 4 (offset,length) requests per file incl. EOF; "
+            "hard links, cache blocks split at random; sizes 0, 1, bs-1, bs, bs+1, 72 and 73 blocks, >144 blocks; 4 (offset,length) requests per file incl. EOF plus one seek+read into every data block in random order; "
             "plus the AmigaDOS-made dumps of regtests/Dumps; distinct = distinct image; every image has files and directories")
     return common.finish(ctx, proof, rule, level="exploration",
                          assumptions=["an image counts as well formed when the Coq decoder accepts it (non-strict: stale pointers beyond highSeq allowed)",
